@@ -167,22 +167,33 @@ def _run_own(chk, S: Session):
             else:
                 okc = isinstance(a0, T.Term) and a0.op == "lift" and a0.args[0] is first_tree and not (isinstance(a1, T.Term) and a1.op == "lift")
         r1.require(okc, "MarkovSequence.sample stacking", "first draw appended (reverse) / prepended (forward), as in evaluate_marginals", f"{T.show(out, 3)}", where, cfg)
-    # stacked marginals are removed first
-    it = S.interp()
-    ms = rec_of_atoms(it, MS, "ms", {"reverse": True, "marginal": T.atom("msf.marginal", ndims={"mean_flat": 2}), "conditional": T.atom("msf.conditional", ndims={"noise.mean_flat": 2})})
-    got = []
+    # stacked marginals are removed first: sampling a sequence that still carries its filtering marginals IS sampling the stripped sequence -- same key, same
+    # requested shape.  Decided as an equality of the two interpreted values (how the method gets there -- a recursive call, a rebinding -- plays no role).
+    for shp in ((), (3, 2)):
+        it = S.interp()
+        ms = rec_of_atoms(it, MS, "ms", {"reverse": True, "marginal": T.atom("msf.marginal", ndims={"mean_flat": 2}), "conditional": T.atom("msf.conditional", ndims={"noise.mean_flat": 2})})
+        cfg = {"shape": list(shp)}
+        from ..tscen import markov_rank_oracle
 
-    def hook(itp, fn, a, kw, site):
-        got.append(a[0])
-        from ..interp import _MISSING
-        if len(got) > 1:
-            return A("samples")
-        return _MISSING
-
-    it.method_hooks[EST + ".MarkovSequence.sample"] = hook
-    call(it, method(it, ms, "sample"), A("key"))
-    ok = len(got) == 2 and isinstance(got[1], Rec) and got[1].fields["conditional"] is ms.fields["conditional"] and got[1].fields["marginal"] is not ms.fields["marginal"]
-    r1.require(ok, "MarkovSequence.sample removes filtering marginals", "delegates to remove_filtering_distributions().sample(...)", f"{len(got)} calls", EST)
+        it.ndim_oracle = markov_rank_oracle  # the stripped sequence's marginal has lost its leading axis
+        try:
+            direct = call(it, method(it, ms, "sample"), A("key"), shape=shp)
+            # a second interpreter, so that loop events are numbered alike in both values
+            it2 = S.interp()
+            it2.ndim_oracle = markov_rank_oracle
+            ms2 = rec_of_atoms(it2, MS, "ms", {"reverse": True, "marginal": ms.fields["marginal"], "conditional": ms.fields["conditional"]})
+            stripped = call(it2, method(it2, ms2, "remove_filtering_distributions"))
+            want = call(it2, method(it2, stripped, "sample"), A("key"), shape=shp)
+            S.absorb(it2)
+        except AnalysisError as e:
+            r1.unknown(f"MarkovSequence.sample of a sequence with filtering marginals (shape {shp})", str(e), EST, cfg)
+            S.absorb(it)
+            continue
+        S.absorb(it)
+        same = T._freeze(direct) == T._freeze(want)
+        stripped_ok = isinstance(stripped, Rec) and stripped.fields["conditional"] is ms.fields["conditional"] and stripped.fields["marginal"] is not ms.fields["marginal"]
+        r1.require(same and stripped_ok, f"MarkovSequence.sample of a sequence with filtering marginals (shape {shp})", "= remove_filtering_distributions().sample(key, shape=shape)",
+                   f"sample(key, shape={shp}) = {T.show(direct, 3)}, but the stripped sequence gives {T.show(want, 3)}: key or requested sample axes are not handed on", EST, cfg)
     # shape recursion
     it = S.interp()
     ms = rec_of_atoms(it, MS, "ms", {"reverse": True, "marginal": T.atom("ms.marginal", ndims={"mean_flat": 1}), "conditional": T.atom("ms.conditional", ndims={"noise.mean_flat": 2})})
@@ -322,3 +333,5 @@ def run(chk, S: Session):
     borrow(chk, S, rb, "C08", lambda r, c: (r in ("R-C08-1", "R-C08-4")) and "apply_flat" in c)
     rb2 = chk.rule("R-C13-B2", "'requested sample shapes are prepended': a Normal with extra leading axes draws by mapping the same sampling method over one axis at a time (rule of C15)", floor=6)
     borrow(chk, S, rb2, "C15", lambda r, c: r == "R-C15-4" and "sample" in c)
+    rb3 = chk.rule("R-C13-B3", "a sequence that still carries its filtering marginals is sampled from its terminal marginal: remove_filtering_distributions keeps the entry the backward (forward) factorisation starts from (rule of C03)", floor=2)
+    borrow(chk, S, rb3, "C03", lambda r, c: r == "R-C03-1" and "remove_filtering_distributions" in c)
